@@ -12,8 +12,15 @@ def run(ctx):
                 extra_rule="Executions are driven to a terminal status by ModelBackend firing timers / delivering callbacks and invoke results in "
                            "scenario-chosen orders. Oracle: never STUCK (PENDING with nothing registered), never HANG, terminal within the "
                            "invocation bound, no user function running at a PENDING return.")
-    from checks import executor_check
+    from checks import batcher_failstop, executor_check
     executor_check.suspend_part(ctx)
+    # "never stuck" includes the checkpoint pipeline after a failed call: every blocked or later producer is released (Batcher.tla
+    # NoStuckWaiter / EveryProducerReturns, and the real pipeline under systematic and random schedules with an injected failure)
+    batcher_failstop.run_part(ctx)
 
 
-replay = replay_execution
+def replay(d):
+    if (d.get("replay") or {}).get("kind") == "batcher":
+        from checks import batcher_failstop
+        return batcher_failstop.replay(d)
+    return replay_execution(d)
